@@ -55,7 +55,7 @@ PROPS = {
         "outside": ["executing an unwind (the native replay does: child processes must exit 101, not SIGABRT)", "after a caught user panic the mock remains usable: argued from C01/C04 step facts"],
     },
     "C08": {
-        "mirsym": ["induce_panic", "teardown", "teardown_wrappers"],
+        "mirsym": ["induce_panic", "teardown", "teardown_wrappers", "display_call"],
         "bounds": {"quick": "induce_panic / handle_error / Continuation::report from an arbitrary state with any error value; teardown for all inputs (see C09)"},
         "assumptions": COMMON_MIR + ["the Mutex is an atomic block (its internals are trusted)"],
         "outside": ["errors racing from several threads", "message text", "the no_std `panicked` flag"],
@@ -67,13 +67,13 @@ PROPS = {
         "outside": ["the generated match arms that act on Unmock / CallDefaultImpl (C15/C16)", "argument values (the scan result is symbolic instead)"],
     },
     "C14": {
-        "mirsym": ["assembler", "tuples", "construction"],
+        "mirsym": ["assembler", "tuples", "construction", "builder_chains"],
         "bounds": {"quick": "tuple impls of every arity 2..16 (element results symbolic); every sequence of <=3 pushes (thorough 4) with symbolic method/mode/exactness/count/responder_error; Each::deconstruct with 0..2 patterns; from_assembler for Ok/Err"},
         "assumptions": COMMON_MIR + ["the element clauses of a tuple are environment calls returning an arbitrary Result (nesting follows by structural induction)"],
         "outside": ["the two compile-time rejections (type checker): ordered patterns only with exact counts, then() only after an exact count"],
     },
     "C18": {
-        "mirsym": ["assembler", "drop_flags", "eval_dyn", "statics", "induce_panic", "construction"],
+        "mirsym": ["assembler", "drop_flags", "eval_dyn", "statics", "induce_panic", "construction", "teardown", "delegators"],
         "bounds": {"quick": "every sequence of <=3 pushes (thorough 4) over 2 (thorough 3) methods; adjacent-swap lemma at every position; Clone::clone data flow; eval_dyn table lookup with symbolic keys"},
         "assumptions": COMMON_MIR + ["BTreeMap modelled as a finite map; iteration order abstracted (no decision in the crate depends on it except the wording of an error message)"],
         "outside": ["generic instantiation distinctness is a property of TypeId (trusted)", "message text"],
@@ -85,8 +85,9 @@ PROPS = {
         "outside": ["the builder refusing at compile time to quantify a non-Clone value (a fact about rustc's type checker)", "real threads racing for the value"],
     },
     "C13": {
-        "bounds": {"quick": "value chain: 2 shared pushes (type of the second symbolic), exclusive push after a shared one followed by a shared one, drop of chains of 0..2 values; thorough: 3 shared pushes"},
-        "assumptions": COMMON_KANI + ["once_cell::sync::OnceCell replaced (cfg(kani) only) by once_cell's own unsync cell behind the same API (Kani cannot compile the std implementation): single-threaded claim"],
+        "mirsym": ["delegators"],
+        "bounds": {"quick": "value chain: 2 shared pushes (type of the second symbolic), exclusive push after a shared one followed by a shared one, drop of chains of 0..2 values; thorough: 3 shared pushes; delegation helper accessors as_ref/as_mut: arbitrary instance, helper cell symbolically empty or filled"},
+        "assumptions": COMMON_KANI + COMMON_MIR + ["once_cell::sync::OnceCell replaced (cfg(kani) only) by once_cell's own unsync cell behind the same API (Kani cannot compile the std implementation): single-threaded claim"],
         "outside": ["thousands of values (bound: 3)", "concurrent pushes through a shared &Unimock (the cell library is trusted)", "recursive drop of very long chains in push_value_mut (observation in DESIGN section 6)"],
     },
     "C06": {
@@ -132,7 +133,7 @@ PROPS = {
         "outside": ["recursion depth > 1", "trait shapes outside the family"],
     },
     "C19": {
-        "mirsym": ["call_path", "eval_dyn", "counter_verify"],
+        "mirsym": ["call_path", "eval_dyn", "counter_verify", "display_call"],
         "bounds": {"quick": "mismatch positions: the guard-free single-alternative members of pattern family G6 (C06 harnesses, diagnostics on) for all argument values; debug_inputs for 4 method shapes; pattern text/location for 3 invocations; which pattern index / operands an error names: E1 units"},
         "assumptions": COMMON_KANI + COMMON_MIR,
         "outside": ["rendered message text (formatting is stubbed under Kani and opaque for E1): wording, separators, '?' glyph", "file!()/line!() values beyond equality with the invocation site"],
